@@ -95,7 +95,7 @@ class C05:
     RULE = ("one case = one generated document pair (JSON-like / YAML-style / XML / CSV / plist-wrapped; second "
             "document a seeded mutation of the first with p=0.7; all four BuildOptions flags drawn) + a reference run "
             "(TreeNode.diff, non-quiet, frozen clock) + 2-4 scheduled runs (1-400 public-API steps B/T/C/V/N/E/K/R/D/"
-            "X/Q/Z over discovered actors, per-run op mix, suspended generators, quiet flips, clock profile, colour/"
+            "X/Q/Z/F over discovered actors, per-run op mix, suspended generators, quiet flips, clock profile, colour/"
             "tty for the final render) + 2 macro schedules. evaluations = cases. non-trivial: the documents differ, the "
             "root edit is compound and at least one scheduled run tightened a compound actor; distinct by hash of "
             "(documents, options, schedules).")
@@ -114,7 +114,7 @@ class C05:
                   "stubbed": ["tqdm monitor thread (disabled)"]}
     PROBES = ["compound_tightened_twice_without_bounds_read", "tighten_after_cleanup", "generator_suspended",
               "generator_resumed", "quiet_flipped_midrun", "bar_rendered_under_jumped_clock", "rendered_colour",
-              "rendered_tty", "macro_diff_quiet", "macro_contexts", "macro_cli_status", "root_compound"]
+              "rendered_tty", "macro_diff_quiet", "macro_contexts", "macro_cli_status", "root_compound", "complete_listing_frozen"]
 
     # ------------------------------------------------------------------ generation
     def gen_case(self, seed, tier, index):
@@ -239,6 +239,7 @@ class C05:
         log.add("outcome", cost, core.digest_of(script))
         self._compare("scheduled", cost, script, ref)
         s.check_resumed_listings()
+        s.check_frozen_listings()
         s.check_non_zero_answers()
         # render: colour / tty / status are drivers too (has_non_zero_cost, edits() while printing)
         s.root.on_diff(s.ret)
